@@ -135,7 +135,9 @@ pub fn c19(tier: &str) -> i32 {
         sb[8] = 19;
         let mut runner = TestRunner::new_with_rng(Config { failure_persistence: None, ..Config::default() }, TestRng::from_seed(RngAlgorithm::ChaCha, &sb));
         let strat = proptest::collection::vec(0..rows.len(), nprobe);
-        let idxs = strat.new_tree(&mut runner).unwrap().current();
+        let mut idxs = strat.new_tree(&mut runner).unwrap().current();
+        idxs.sort();
+        idxs.dedup();
         let results: Vec<(usize, Result<(), String>)> = std::thread::scope(|s| {
             let hs: Vec<_> = idxs
                 .chunks((idxs.len() + 15) / 16)
